@@ -64,10 +64,11 @@ def spec_monitor(ops, outs):
             # hand out a waiter that is parked only as the sender of a value still sitting in the slot
             if o[0] not in ("-", "?"):
                 w = int(o[0])
+                # (the reply does not say which waiter list the entry came from, and one id may sit in both when a
+                # sequence uses it in both roles - stale entries included: the rule is applied to ids that never
+                # parked as a receiver in this sequence; half of the generated sequences keep the roles disjoint)
                 if w in pending and pending[w] in fifo and w not in recv_parked:
                     return i, "runnable_waiter released waiter %d, a synchronous sender whose value %d has not been taken" % (w, pending[w])
-                if w not in pending:
-                    recv_parked.discard(w)
         elif t[0] == "send":
             if o[0] in ("ok", "fullblock"):
                 if t[1] == "ro":
